@@ -43,4 +43,17 @@ CLAIMS = {
                 'outside the normaliser\'s statement forms is exit 2.',
         'technique': 'AST/CFG normal-form comparison against a spec table (custom clang plugin facts) + sibling cross-check of the two VM drivers',
     },
+    'C02': {
+        'text': 'Decides necessary conditions of memory safety and bounded work for every accepted font and text, as path / dominance / '
+                'who-may-call / constant-coherence rules: every opcode handler touches stack cells only within the guard cells and '
+                'leaves through ENDOP/EXIT with an unsigned range test; the loader\'s stack model covers what each in-scope handler pops; '
+                'operand bytes claimed equal the table; operand-derived slot references go through the two-sided slotat() window and are '
+                'null-tested before use; user-attribute indexing is guarded; slots are allocated only at the tabled, budgeted sites '
+                '(decMax, growth refusal, post-pass size test, extendLength accounting); limit constants equal the extents they index; '
+                'recursion depth cut-offs dominate the recursive calls; the per-pass loop counter is consulted on the advance path and '
+                'forced >= 1.  NOT decided: float-derived indexing in the colliders, the work bound as a number, leak-freedom.',
+        'note': 'Trusted: clang 14 CFG/constant folder, tools/grfacts, rules/vmsym.py, rules/dom.py, and the hand-confirmed tables in '
+                'rules/c02.py (allowed newSlot/extendLength callers with reasons).  Allocation failure is outside the quantifier.',
+        'technique': 'CFG dominance (edge-cut) + path rules + who-may-call over resolved callees + symbolic stack-offset analysis of opcode handlers',
+    },
 }
